@@ -2,7 +2,7 @@
 
 use crate::net::Fired;
 use crate::plan::*;
-use crate::world::run_plan;
+use crate::check::execute as run_plan;
 use std::time::{Duration, Instant};
 
 pub struct Shrunk {
